@@ -62,12 +62,31 @@ def run(rep):
     if big:
         runs.append(dict(name="C08_big", configs=big, acts=acts, max_steps=8 if q else 12, mode="sim", num=300 if q else 4000, check=False))
     crop.drive(rep, runs, claims=lambda tag: tag.startswith(CLAIMS_PREFIX))
+    # "at every moment": progress queries interleaved with growers at the level of file operations (CropFS.tla)
+    from .. import cropfs
+    import os
+    try:
+        os.dup2(os.open(os.devnull, os.O_WRONLY), 2)
+    except Exception:
+        pass
+    cropfs.progress_during_growth(rep, 60 if q else 600)
     # code -> spec: the repository's own crop / farming tests, recorded by vx/pytest_vx.py, validated by CropTrace.tla
     from .. import croptrace
     croptrace.check_repo_tests(rep, ("sow", "grow", "grow_missing", "check_bad"))
 
 
 def replay(rep, saved):
+    if str(saved.get("kind", "")).startswith("poll_"):
+        from .. import cropfs
+        setup = cropfs.Setup(4, 2)
+        try:
+            obs = cropfs.execute(setup, [("g1", 1, 9101), ("g2", 2, 9102)], [tuple(x) for x in saved["steps"]], npolls=2, with_reaper=False)
+            prob, tag = cropfs.judge(setup, obs, False)
+            if prob:
+                rep.add_violation(saved, prob)
+        finally:
+            setup.close()
+        return
     if saved.get("kind") == "test_trace":
         from .. import croptrace
         rej, at, _ = croptrace.validate(None, [saved], name="CropTraceReplay", progress=True)
